@@ -1285,6 +1285,55 @@ pub fn meta(d: usize) -> Vec<(&'static str, Vec<Toks>)> {
     ]
 }
 
+/// Sentences that put a KQL-only pattern (BELIEF, BELIEF SLOT, raw predicate path) into a
+/// selection that is restricted to exact patterns (KIPSyntax §2.1: "never inside a mutation's
+/// WHERE or an EXPORT selection"), at the top of the block and inside every nesting block.
+/// They are expected to be refused; what the check demands is that every entry point agrees.
+pub fn cross_flavor() -> Vec<Toks> {
+    let kql_only: Vec<Toks> = vec![
+        vec![var("?b"), kw("BELIEF"), p("("), var("?t"), p(","), q("timezone"), p(","), var("?tz"), p(")")],
+        vec![var("?b"), kw("BELIEF"), p("("), var("?pr"), p(")")],
+        vec![var("?b"), kw("BELIEF"), p("("), key("id"), p(":"), par(":prop_id"), p(")")],
+        vec![var("?slot"), kw("BELIEF"), kw("SLOT"), p("("), var("?t"), p(","), q("timezone"), p(")")],
+        vec![p("("), var("?t"), p(","), q("is_subclass_of"), glued(p("{")), num("0"), p(","), num("5"), p("}"), p(","), var("?anc"), p(")")],
+        vec![var("?pr"), p("("), var("?t"), p(","), q("a"), p("|"), q("b"), p(","), var("?y"), p(")")],
+        vec![var("?pr"), kw("PROPOSITION"), p("("), var("?t"), p(","), q("p"), glued(p("{")), num("2"), p("}"), p(","), var("?y"), p(")")],
+        vec![var("?c"), p("{"), key("proposition"), p(":"), p("("), var("?t"), p(","), q("a"), p("|"), par(":pred"), p(","), var("?y"), p(")"), p("}")],
+        vec![kw("STRUCTURAL"), p("("), var("?t"), p(","), q("has_step"), p(","), p("("), var("?s"), p(","), q("p"), glued(p("{")), num("1"), p(","), p("}"), p(","), var("?o"), p(")"), p(")")],
+    ];
+    let wrappers: Vec<(Toks, Toks)> = vec![
+        (vec![], vec![]),
+        (vec![kw("OPTIONAL"), p("{")], vec![p("}")]),
+        (vec![kw("NOT"), p("{")], vec![p("}")]),
+        (vec![kw("UNION"), p("{")], vec![p("}")]),
+        (vec![kw("OPTIONAL"), p("{"), kw("NOT"), p("{")], vec![p("}"), p("}")]),
+        (vec![kw("UNION"), p("{"), kw("OPTIONAL"), p("{")], vec![p("}"), p("}")]),
+        (vec![kw("NOT"), p("{"), kw("UNION"), p("{")], vec![p("}"), p("}")]),
+    ];
+    // (text before the block, text after it)
+    let contexts: Vec<(Toks, Toks)> = vec![
+        (cat(&[&kws("EXPORT CAPSULE"), &[var("?t"), kw("WHERE")]]), vec![]),
+        (cat(&[&kws("EXPORT CAPSULE"), &[par(":root"), kw("WHERE")]]), cat(&[&[kw("WITH"), p("{"), key("closure"), p(":"), q("referential"), p("}")]])),
+        (cat(&[&[kw("UPDATE"), var("?t")], &kws("SET ATTRIBUTES"), &[p("{"), key("a"), p(":"), num("1"), p("}"), kw("WHERE")]]), vec![]),
+        (cat(&[&kws("RETRACT ASSERTION"), &[var("?t"), kw("WHERE")]]), vec![kw("LIMIT"), num("3")]),
+        (cat(&[&kws("SET RETENTION"), &[var("?t"), p("{"), key("retention_class"), p(":"), q("x"), p("}"), kw("WHERE")]]), vec![]),
+        (vec![kw("ARCHIVE"), var("?t"), kw("WHERE")], vec![]),
+        (vec![kw("TOMBSTONE"), par(":id"), kw("WHERE")], cat(&[&kws("EXPECT STATE"), &[q("active")]])),
+        (vec![kw("PURGE"), var("?t"), kw("WHERE")], vec![kw("CONFIRM"), q("PURGE")]),
+        (cat(&[&kws("MERGE CONCEPT"), &[var("?t"), kw("INTO"), par(":tgt"), kw("WHERE")]]), vec![]),
+        (vec![kw("MUTATE"), p("{"), kw("ARCHIVE"), var("?t"), kw("WHERE")], vec![p("}")]),
+    ];
+    let mut out = Vec::new();
+    for (before, after) in &contexts {
+        for (open, close) in &wrappers {
+            for pattern in &kql_only {
+                out.push(cat(&[before, &[p("{")], &binder(), open, pattern, close, &[p("}")], after]));
+            }
+        }
+    }
+    out
+}
+
 /// All sentences to recursion depth `d`, in a fixed order.
 pub fn sentences(d: usize) -> Vec<Sentence> {
     let mut out = Vec::new();
@@ -1310,6 +1359,12 @@ pub fn sentences(d: usize) -> Vec<Sentence> {
         for toks in alts {
             out.push(Sentence { family, toks });
         }
+    }
+    for toks in cross_flavor() {
+        out.push(Sentence {
+            family: "neg.cross_flavor",
+            toks,
+        });
     }
     // global dedup, order kept
     let mut seen = std::collections::HashSet::new();
